@@ -192,3 +192,14 @@ VARIANTS += [
       "                errors += n * abs(goal_min_width - width)", "silent",
       "", "the same amount under its guard"),
 ]
+
+VARIANTS += [
+    V("executors-consumed-by-check",
+      "moptipyapps/binpacking2d/instgen/hardness.py",
+      "        #: the executors\n",
+      "        for executor in executors:\n"
+      "            if not callable(executor):\n"
+      "                raise ValueError(\"executor\")\n"
+      "        #: the executors\n", "fire", "D17.11",
+      "seed C17-executors-iterable-consumed-by-check"),
+]
